@@ -3,15 +3,22 @@
 package queryfrontend
 
 import (
+	"bytes"
 	"context"
+	"io"
 	"net/http"
 	"net/url"
 	"time"
 
+	"github.com/go-kit/log"
+	"github.com/prometheus/common/model"
 	"github.com/weaveworks/common/user"
 
+	cortexcache "github.com/thanos-io/thanos/internal/cortex/chunk/cache"
+	"github.com/thanos-io/thanos/internal/cortex/frontend/transport"
 	"github.com/thanos-io/thanos/internal/cortex/querier/queryrange"
 	"github.com/thanos-io/thanos/internal/cortex/tenant"
+	cortexvalidation "github.com/thanos-io/thanos/internal/cortex/util/validation"
 )
 
 var (
@@ -20,19 +27,27 @@ var (
 	verifC43KeyGen      = newThanosCacheKeyGenerator()
 )
 
-// VerifC43Key does what the frontend does with one HTTP request up to the cache key: the org id (value
+// VerifC43Key is VerifC43Keys without the alternative keys.
+func VerifC43Key(orgID, path string, form url.Values, split time.Duration) (key string, cacheable bool, err error) {
+	key, _, cacheable, err = VerifC43Keys(orgID, path, form, split)
+	return key, cacheable, err
+}
+
+// VerifC43Keys does what the frontend does with one HTTP request up to the cache keys: the org id (value
 // of the tenant header, injected by cmd/thanos) is resolved with the real tenant resolver, the request is
 // decoded with the real codec, shouldCache is consulted, the split interval is attached as the split
-// middleware does, and the real key generator is called with the joined tenant ids, like resultsCache.Do.
-func VerifC43Key(orgID, path string, form url.Values, split time.Duration) (key string, cacheable bool, err error) {
+// middleware does, and the real key generator is called with the joined tenant ids, like resultsCache.Do:
+// GenerateCacheKey for the key the entry is read and written under, GenerateCacheKeyAlternatives (if the
+// generator has it, like resultsCache.generateAlternativeCacheKeys) for the keys looked up on a miss.
+func VerifC43Keys(orgID, path string, form url.Values, split time.Duration) (key string, alternatives []string, cacheable bool, err error) {
 	ctx := user.InjectOrgID(context.Background(), orgID)
 	ids, err := tenant.TenantIDs(ctx)
 	if err != nil {
-		return "", false, err
+		return "", nil, false, err
 	}
 	hr, err := http.NewRequestWithContext(ctx, http.MethodGet, "http://fe"+path+"?"+form.Encode(), nil)
 	if err != nil {
-		return "", false, err
+		return "", nil, false, err
 	}
 	var req queryrange.Request
 	if getOperation(hr) == rangeQueryOp {
@@ -41,11 +56,75 @@ func VerifC43Key(orgID, path string, form url.Values, split time.Duration) (key 
 		req, err = verifC43LabelsCodec.DecodeRequest(ctx, hr, nil)
 	}
 	if err != nil {
-		return "", false, err
+		return "", nil, false, err
 	}
 	if !shouldCache(req) {
-		return "", false, nil
+		return "", nil, false, nil
 	}
 	req = req.(SplitRequest).WithSplitInterval(split)
-	return verifC43KeyGen.GenerateCacheKey(tenant.JoinTenantIDs(ids), req), true, nil
+	userID := tenant.JoinTenantIDs(ids)
+	if alt, ok := any(verifC43KeyGen).(queryrange.AlternativeCacheSplitter); ok {
+		alternatives = alt.GenerateCacheKeyAlternatives(userID, req)
+	}
+	return verifC43KeyGen.GenerateCacheKey(userID, req), alternatives, true, nil
+}
+
+// VerifC43Frontend is the real frontend tripperware (NewTripperware: codecs, split by interval, results cache
+// middleware with the real key generator, for range and for labels/series requests) over fresh in-memory FIFO
+// results caches and a caller-supplied downstream.
+type VerifC43Frontend struct {
+	rt http.RoundTripper
+}
+
+// VerifC43NewFrontend wires the tripperware. downstream plays the querier: it gets the org id header, the path
+// and the form of every forwarded request and returns status and JSON body.
+func VerifC43NewFrontend(split time.Duration, downstream func(orgID, path string, form url.Values) (int, []byte)) (*VerifC43Frontend, error) {
+	limits := &cortexvalidation.Limits{
+		MaxQueryLength:      model.Duration(7 * 24 * time.Hour),
+		MaxQueryParallelism: 14,
+		MaxCacheFreshness:   model.Duration(time.Minute),
+	}
+	cacheConf := func() *queryrange.ResultsCacheConfig {
+		return &queryrange.ResultsCacheConfig{CacheConfig: cortexcache.Config{
+			EnableFifoCache: true,
+			Fifocache:       cortexcache.FifoCacheConfig{MaxSizeBytes: "1MiB", MaxSizeItems: 1000, Validity: time.Hour},
+		}}
+	}
+	tpw, err := NewTripperware(Config{
+		CortexHandlerConfig: &transport.HandlerConfig{},
+		QueryRangeConfig:    QueryRangeConfig{Limits: limits, ResultsCacheConfig: cacheConf(), SplitQueriesByInterval: split},
+		LabelsConfig:        LabelsConfig{Limits: limits, ResultsCacheConfig: cacheConf(), SplitQueriesByInterval: split},
+	}, nil, log.NewNopLogger())
+	if err != nil {
+		return nil, err
+	}
+	next := queryrange.RoundTripFunc(func(r *http.Request) (*http.Response, error) {
+		if err := r.ParseForm(); err != nil {
+			return nil, err
+		}
+		code, body := downstream(r.Header.Get(user.OrgIDHeaderName), r.URL.Path, r.Form)
+		return &http.Response{
+			StatusCode:    code,
+			Header:        http.Header{"Content-Type": []string{"application/json"}},
+			Body:          io.NopCloser(bytes.NewReader(body)),
+			ContentLength: int64(len(body)),
+		}, nil
+	})
+	return &VerifC43Frontend{rt: tpw(next)}, nil
+}
+
+// Do sends one HTTP request of the given org id through the tripperware and returns status and body.
+func (f *VerifC43Frontend) Do(orgID, path string, form url.Values) (int, []byte, error) {
+	ctx := user.InjectOrgID(context.Background(), orgID)
+	hr, err := http.NewRequestWithContext(ctx, http.MethodGet, "http://fe"+path+"?"+form.Encode(), nil)
+	if err != nil {
+		return 0, nil, err
+	}
+	resp, err := f.rt.RoundTrip(hr)
+	if err != nil {
+		return 0, nil, err
+	}
+	defer resp.Body.Close()
+	body, err := io.ReadAll(resp.Body)
+	return resp.StatusCode, body, err
 }
